@@ -29,15 +29,15 @@ PROPS = {
     'C03': {'e1': CORE_E1},
     'C04': {'e1': CORE_E1},
     'C06': {'e1': CORE_E1},
-    'C13': {'e1': dict(CORE_E1, unary={'quick': [('sqrt_abacus', 0, 1048576, 64, 1), ('sqrt_std', 0, 1048576, 64, 0)],
+    'C13': {'e1': dict(CORE_E1, unary={'quick': [('sqrt_abacus', 0, 1048576, 61, 1), ('sqrt_std', 0, 1048576, 67, 0)],
                                         'thorough': [('sqrt_abacus', 0, 1048576, 1, 1), ('sqrt_std', 0, 1048576, 1, 0)]})},
     'C15': {'e1': CORE_E1},
     'C18': {'e1': CORE_E1},
-    'C09': {'chunk': 6000, 'e1': {'unary': {'quick': [('sin', -411774, 411774, 64, 0), ('cos', -411774, 411774, 64, 0)],
+    'C09': {'chunk': 6000, 'e1': {'unary': {'quick': [('sin', -411774, 411774, 61, 0), ('cos', -411774, 411774, 59, 0)],
                                             'thorough': [('sin', -411774, 411774, 1, 0), ('cos', -411774, 411774, 1, 0)]}}},
-    'C10': {'chunk': 4000, 'e1': {'unary': {'quick': [('tan', -205887, 205887, 32, 0)], 'thorough': [('tan', -205887, 205887, 1, 0)]}}},
-    'C11': {'chunk': 4000, 'e1': {'unary': {'quick': [('atan', 0, 1048576, 128, 0)], 'thorough': [('atan', -262144, 1048576, 1, 0)]}}},
-    'C12': {'chunk': 4000, 'e1': {'unary': {'quick': [('asin', -65700, 65700, 16, 1), ('acos', -65700, 65700, 16, 0)],
+    'C10': {'chunk': 4000, 'e1': {'unary': {'quick': [('tan', -205887, 205887, 31, 0)], 'thorough': [('tan', -205887, 205887, 1, 0)]}}},
+    'C11': {'chunk': 4000, 'e1': {'unary': {'quick': [('atan', 0, 1048576, 127, 0)], 'thorough': [('atan', -262144, 1048576, 1, 0)]}}},
+    'C12': {'chunk': 4000, 'e1': {'unary': {'quick': [('asin', -65700, 65700, 17, 1), ('asin', -65699, 65700, 19, 0), ('acos', -65700, 65700, 17, 0)],
                                             'thorough': [('asin', -65700, 65700, 1, 1), ('asin', -65700, 65700, 1, 0),
                                                          ('acos', -65700, 65700, 1, 1), ('acos', -65700, 65700, 1, 0)]}}},
     'C07': {'chunk': 20000, 'quick_cfgs': ['clang++-O1-c++17-san', 'g++-O2-c++20-san', 'clang++-O2-c++20'],
